@@ -10,15 +10,14 @@ from .c11 import loops_bounded_by_rounds
 from ..initflow import lf_add, lf_const, lf_str
 from .routing_rules import helpers, table_str, compose_canon, identity_canon
 
-TITLE = ("Decides four structural necessary conditions of 'decrypt inverts encrypt' (the algebraic inverse itself is a value "
-         "fact and is not decided): (R1) functions are classified by how they walk the key schedule (forward from entry 0 / "
-         "backward from rounds-1), every *_encrypt entry point and vtable slot 0 reaches only forward walkers, every "
-         "*_decrypt entry point and slot 1 only backward walkers, including the never-executed scalar tails; (R2) a backward "
-         "walk starts at schedule[rounds-1] and a forward walk at schedule[0], both visit exactly `rounds` entries of the "
-         "same object's rounds field that bounded the writer; (R3) by bit-granular copy propagation (bits are moved, never combined) every "
-         "helper pair X / X_inverse (tweak permutation h, cell permutation P, scalar and vector copies) composes to the identity "
-         "routing; (R5) every site that XORs the reflection constant into k1 (key setup, mode switch, cipher core, per unit) applies the same eight constant bytes; (R4) mantis_swap_modes writes only k0, k0prime and k1 (tweak "
-         "and rounds are outside its may-write set) and the parallel wrapper reaches it with the context pointer unchanged.")
+TITLE = ("Structural and linear-algebraic necessary conditions of 'decrypt inverts encrypt' (S-box values are not "
+         "decided): (R1) every *_encrypt entry point and vtable slot 0 reaches only forward schedule walkers, every "
+         "*_decrypt / slot 1 only backward ones; (R2) each walk starts at the right end and visits `rounds` entries of the "
+         "same object; (R3) every permutation helper pair X / X_inverse composes to the identity routing (bit-granular "
+         "copy propagation); (R4) the Mantis mode switch writes exactly k0, k0prime, k1; (R5) every site that XORs the "
+         "reflection constant into k1 applies the same eight bytes; (R6) for every SKINNY encrypt/decrypt pair (scalar and "
+         "vector) in every configuration, GF(2) affine interpretation of one round: decrypt's linear layer composed with "
+         "encrypt's is the identity on all state bits including key and round-constant terms.")
 
 
 def walk_start(prog, an, f):
